@@ -1202,3 +1202,155 @@ def c15_unwind(ctx):
     else:
         out.append(ok(R, 'pool-thread|no-catch', 'nothing on the pool thread path catches an unwinding job (%d bodies): the thread finishes, is reaped by remove_finished_threads and replaced' % n))
     return out
+
+
+# ---------------------------------------------------------------------------------------------
+DWS = 'desync::scheduler::scheduler_future::DrainWakerState'
+
+
+def _enum_swap_table(fn, enum_path):
+    """For the `mem::swap(&mut *guard, &mut tmp); match tmp {..}` idiom: variant -> (set of variants written back, set of Some/None given
+    to the Option result local)."""
+    table = {}
+    sw = None
+    for bb, b in enumerate(fn.blocks):
+        t = b['term']
+        if t and t['k'] == 'switch' and not b['cleanup']:
+            for s in b['stmts']:
+                if s['k'] == 'assign' and s['rv']['k'] == 'discr' and clean_ty(s['rv']['pl']['ty']) == enum_path:
+                    sw = (bb, t)
+    if not sw:
+        return None
+    bb, t = sw
+    adt = fn.facts.adts.get(enum_path)
+    if not adt:
+        return None
+    for v in adt['variants']:
+        tgt = None
+        for val, tb in t['targets']:
+            if str(val) == str(v['discr']):
+                tgt = tb
+        if tgt is None:
+            continue
+        written, opt = set(), set()
+        for b2 in sorted(fn.reachable_blocks(tgt)):
+            if not edom(fn, tgt, b2):
+                continue
+            blk = fn.blocks[b2]
+            if blk['cleanup']:
+                continue
+            for s in blk['stmts']:
+                if s['k'] != 'assign':
+                    continue
+                e = fn.expr_of_rvalue(s['rv'])
+                if s['pl']['p'] and all(p['k'] == 'deref' for p in s['pl']['p']) and e[0] == 'agg' and e[2].startswith(enum_path + '::'):
+                    written.add(e[2].split('::')[-1])
+                if not s['pl']['p'] and e[0] == 'agg' and e[2] in ('core::option::Option::Some', 'core::option::Option::None') and 'Waker' in fn.local_ty(s['pl']['l']):
+                    opt.add(e[2].split('::')[-1])
+        table[v['name']] = (written, opt)
+    return table
+
+
+def c06_drain(ctx):
+    """Poll-side drain: on a suspended job the order is requeue -> state write -> DrainWaker::wake_with; DrainWaker latches a wake that
+    arrives before the real waker is installed; DoubleWaker wakes both the queue and the polling task; the thread-side drain parks in a loop
+    that re-reads the state."""
+    F = ctx.F
+    out = []
+    R = 'ORD-C06-drain'
+    g = cg(ctx)
+    dq = _fn(ctx, 'desync::scheduler::scheduler_future::SchedulerFuture::drain_queue', R, out)
+    if dq:
+        ww = calls(dq, 'DrainWaker::wake_with')
+        rq = calls(dq, 'JobQueue::requeue')
+        u = FieldUse(dq, JQC)
+        sw = [(bb, i) for (bb, i, v) in u.assigns.get('state', [])]
+        key = 'drain_queue|requeue->state->wake_with'
+        if len(ww) < 2 or len(rq) < 1:
+            out.append(bad(R, key, 'expected a requeue and two wake_with sites on the suspended-job path (found %d/%d)' % (len(rq), len(ww)), fn=dq.name))
+        else:
+            problems = []
+            for wb, t in ww:
+                writes_before = [(bb, i) for (bb, i) in sw if dominates(dq, bb, wb)]
+                if not any(dominates(dq, rq[0][0], bb) for (bb, i) in writes_before):
+                    problems.append('wake_with (%s) is not preceded by requeue and then the state write' % dq.loc(wb))
+            # every path from the Pending edge of the job's run to the exit passes a wake_with
+            runs = [s for s in g.sites.get(dq.name, []) if s.kind == 'dyn_run']
+            if len(runs) == 1:
+                e = result_edges(dq, runs[0].bb)
+                pend = edge_for(e, POLL_ENUM, 'Pending') if e else None
+                if pend is None or not dq.must_pass(pend, set(dq.exits()), set(b for b, _ in ww)):
+                    problems.append('a suspended job can leave drain_queue without the real waker being installed in the DrainWaker')
+            else:
+                problems.append('job execution site not found')
+            if problems:
+                out.append(bad(R, key, '; '.join(problems) + ': a wake-up arriving in between is lost or acts on a queue that is not parked yet', fn=dq.name))
+            else:
+                out.append(ok(R, key, 'on both suspended-job branches: requeue, then the parked state is written, then the real waker is installed', fn=dq.name))
+    # DrainWaker decision tables
+    for name, need in (('desync::scheduler::scheduler_future::DrainWaker::wake_with', {'Woken': ('opt', 'Some'), 'NotWoken': ('write', 'WillWakeWithWaker'), 'WillWakeWithWaker': ('write', 'WillWakeWithWaker')}),
+                       ('<desync::scheduler::scheduler_future::DrainWaker as futures_task::arc_wake::ArcWake>::wake_by_ref', {'NotWoken': ('write', 'Woken'), 'WillWakeWithWaker': ('opt', 'Some'), 'Woken': ('write', 'Woken')})):
+        fn = F.fn(name)
+        key = 'DW-table|' + short(name).split('::')[-1]
+        if not fn:
+            out.append(undecided(R, key, 'anchor not found'))
+            continue
+        tab = _enum_swap_table(fn, DWS)
+        if not tab:
+            out.append(undecided(R, key, 'swap-and-match idiom not recognised'))
+            continue
+        probs = []
+        for var, (kind, val) in need.items():
+            w, o = tab.get(var, (set(), set()))
+            if kind == 'opt' and val not in o:
+                probs.append('row %s does not hand a waker to be woken' % var)
+            if kind == 'write' and val not in w:
+                probs.append('row %s does not leave the state %s' % (var, val))
+        # the Option result is woken after the lock
+        wakes = [s for c in [fn] + _children(ctx, fn.name) for s in g.sites.get(c.name, []) if s.kind == 'wake']
+        if not wakes:
+            probs.append('the waker selected by the table is never woken')
+        if probs:
+            out.append(bad(R, key, '; '.join(probs) + ' (a wake-up that arrives before / after the real waker is installed would be dropped)', fn=name))
+        else:
+            out.append(ok(R, key, 'rows: ' + '; '.join('%s -> write %s, wake %s' % (v, sorted(w) or '-', sorted(o) or '-') for v, (w, o) in sorted(tab.items())), fn=name))
+    # DoubleWaker wakes both
+    dw = F.fn('<desync::scheduler::scheduler_future::DoubleWaker as futures_task::arc_wake::ArcWake>::wake_by_ref')
+    key = 'DoubleWaker|wakes-both'
+    if not dw:
+        out.append(undecided(R, key, 'anchor not found'))
+    else:
+        wakes = [s for s in g.sites.get(dw.name, []) if s.kind == 'wake']
+        takes = calls(dw, 'core::option::Option::take')
+        if len(wakes) >= 2 and takes:
+            # both on the Some edge, one after the other
+            a, b = wakes[0].bb, wakes[1].bb
+            if dominates(dw, a, b) or dominates(dw, b, a):
+                out.append(ok(R, key, 'the pair is taken once and both wakers are woken on the same path', fn=dw.name))
+            else:
+                out.append(bad(R, key, 'the two wakers are woken on different paths', fn=dw.name))
+        else:
+            out.append(bad(R, key, 'DoubleWaker no longer wakes both of its wakers (found %d wake sites)' % len(wakes), fn=dw.name))
+    # thread-side: park in a loop that re-reads the state
+    rj = F.fn('desync::scheduler::job_queue::JobQueue::run_one_job_now')
+    key = 'run_one_job_now|park-in-recheck-loop'
+    if not rj:
+        out.append(undecided(R, key, 'anchor not found'))
+    else:
+        parks = calls(rj, 'std::thread::functions::park')
+        if len(parks) != 1:
+            out.append(undecided(R, key, 'expected one thread::park, found %d' % len(parks)))
+        else:
+            pb, pt = parks[0]
+            H = ctx.held(rj)
+            after = rj.reachable_blocks(pt['target']) if pt['target'] is not None else set()
+            cyc = [b for b in after if pb in rj.reachable_blocks(b)]
+            reread = [b for b in cyc if 'JobQueue.core' in H.held_at_term(b) or 'JobQueue.core' in H.held_before(b, 0)]
+            runs = set(x.bb for x in g.sites.get(rj.name, []) if x.kind == 'dyn_run')
+            region_blocks = set(b for b in range(len(rj.blocks)) if 'JobQueue.core' in H.held_at_term(b) or 'JobQueue.core' in H.held_before(b, 0))
+            rechecked = pt['target'] is not None and rj.must_pass(pt['target'], runs | set(rj.exits()), region_blocks)
+            if pb in after and reread and rechecked and 'JobQueue.core' not in H.held_at_term(pb):
+                out.append(ok(R, key, 'park sits in a loop that re-reads the queue state under its lock (spurious or early unparks are harmless)', fn=rj.name))
+            else:
+                out.append(bad(R, key, 'thread::park is not re-checked in a loop against the queue state (an unpark that arrives before the park, or a spurious one, is mis-handled)', fn=rj.name))
+    return out
